@@ -66,7 +66,9 @@ class Enum:
         self.count += 1
         self.ctx.case(nontrivial=True, classes=[self.mode + "/" + field], ident=[self.ih, field, edit])
         if accepted:
-            self.ctx.fail("%s: decryption ACCEPTS a modified input: %s (edit %s %s)" % (self.mode, describe(), field, edit), "%s/%s" % (self.mode, field))
+            late = " - the first finish call refused, a further finish call on the same context then reported success" if accepted == "late" else ""
+            self.ctx.fail("%s: decryption ACCEPTS a modified input: %s (edit %s %s)%s" % (self.mode, describe(), field, edit, late),
+                          "%s/%s%s" % (self.mode, field, "/after-refusal" if late else ""))
 
 
 def enumerate_oneshot(E, dec, nonce, aad, ct, tag, nonce_range, what):
@@ -282,6 +284,16 @@ def run_stream(l, prefix, ctxname, key, iv, aad, data, parts, enc, keyarg, slack
         r = fin(c, ob, byref(ol))
         if r != 1:
             ok = False
+            if not enc:
+                # a caller that asks the refused context again - finish once more, then more input and finish - must not be told "authentic"
+                ob2 = Buf(64, fill=0); ol2 = c_size_t(0)
+                r2 = fin(c, ob2, byref(ol2))
+                ob3 = Buf(64 + 48, fill=0); ol3 = c_size_t(0)
+                r3 = upd(c, Buf(48 + slack, fill=0x33), 48, ob3, byref(ol3))
+                ob4 = Buf(64, fill=0); ol4 = c_size_t(0)
+                r4 = fin(c, ob4, byref(ol4)) if r3 == 1 else -1
+                if r2 == 1 or r4 == 1:
+                    return "late", b"".join(out)
         else:
             out.append(ob.raw(min(ol.value, ob.n)))
     return ok, b"".join(out)
